@@ -76,6 +76,12 @@ class Ctx:
     def violation(self, rule, func_or_qual, key, message, node=None, file=None, line=None, path=None,
                   witness=None, instance=None):
         qual = getattr(func_or_qual, "qualname", func_or_qual)
+        dem = getattr(self, "_demoted", {}).get(rule)
+        if dem is not None:
+            # a structural (idiom-bound, sufficient) rule that is not satisfied while the clause it supports was decided by
+            # evaluation: recorded, not reported (see DESIGN 10.9)
+            self.notice(rule, "structural rule not satisfied in %s (%s); the clause is decided by %s" % (qual, str(message)[:160], dem))
+            return None
         if file is None and hasattr(func_or_qual, "file"):
             file = func_or_qual.file
         if line is None and node is not None:
@@ -97,6 +103,18 @@ class Ctx:
         self.instances.append((rule, instance or key, "violated", message))
         return f
 
+    def demote(self, rules, by):
+        """Until restore(): violations of the given structural rules become notices (the clause was decided by `by`)."""
+        prev = dict(getattr(self, "_demoted", {}))
+        cur = dict(prev)
+        for r in rules:
+            cur[r] = by
+        self._demoted = cur
+        return prev
+
+    def restore(self, prev):
+        self._demoted = prev
+
     def notice(self, rule, msg):
         if (rule, msg) not in self.notices:
             self.notices.append((rule, msg))
@@ -104,6 +122,9 @@ class Ctx:
     def need(self, rule, what, n, minimum):
         """Fail closed when a rule finds fewer instances than were confirmed
         by hand: a rule that matches nothing must not pass vacuously."""
+        if n < minimum and getattr(self, "_demoted", {}).get(rule) is not None:
+            self.notice(rule, "only %d %s found (%d expected): idiom not recognised; the clause is decided by %s" % (n, what, minimum, self._demoted[rule]))
+            return
         if n < minimum:
             raise AnalysisError(rule, "only %d %s found, at least %d expected (anchor vanished or idiom not "
                                       "recognised)" % (n, what, minimum))
